@@ -26,6 +26,18 @@ pub fn profile(p: u64) -> Scn {
         s.genesis_cells = 16;
         return s;
     }
+    if p == 7 {
+        // proposal-bound: byte limit as in profile 6 but no proposal limit - waves of 6..9 fresh transactions arrive on one
+        // tip (10 bytes per proposal) while the room the packaged transactions leave is < 230 bytes: the waves fit one by
+        // one but not together.  (The limit must leave room for header + cellbase + extension + two uncles, ~940 bytes:
+        // `update_blank` takes the uncle candidates unconditionally - with 525 bytes the node refused its own template;
+        // not a finding: no consensus has a byte limit below one cellbase and two uncles.)
+        s.mine = true;
+        s.window = (2, 4);
+        s.max_block_bytes = Some(1100);
+        s.genesis_cells = 24;
+        return s;
+    }
     match p % 4 {
         0 => { s.mine = true; s.window = (2, 4); }
         1 => { s.mine = false; s.window = (2, 4); }
@@ -129,12 +141,21 @@ pub fn reorg_history(args: &[String], probes: bool) -> Value {
     let mut n_resubmit = 0u64;
     // twins created for transactions that went to the main chain: candidates to be committed on a side branch
     let mut twins: Vec<usize> = vec![];
-    if pr == 5 || pr == 6 {
+    if pr == 5 || pr == 6 || pr == 7 {
         // backlog: more independent transactions than two blocks can take
         for g in 0..9usize {
             let n_out = 1 + g % 3;
             if let Some(t) = w.new_tx(&[g], &[], &[], n_out, 1000 + 137 * g as u64, &mut rng) {
                 if w.submit(t).is_ok() { n_accept += 1 } else { n_reject += 1 }
+            }
+        }
+        // a chain a <- b <- c with strictly decreasing fee rates: packaged one by one, each with its not yet packaged ancestors
+        let mut prev: Option<usize> = None;
+        for (k, fee) in [9_000u64, 4_000, 900].iter().enumerate() {
+            let ins = match prev { None => vec![9usize + k], Some(t) => vec![w.txs[t].outs[0]] };
+            if let Some(t) = w.new_tx(&ins, &[], &[], 1, *fee, &mut rng) {
+                if w.submit(t).is_ok() { n_accept += 1 } else { n_reject += 1 }
+                prev = Some(t);
             }
         }
     }
@@ -158,6 +179,18 @@ pub fn reorg_history(args: &[String], probes: bool) -> Value {
                 w.mine()?;
                 w.probe_template("epoch-boundary", true);
                 n_blocks += 1;
+                return Ok(());
+            }
+            if pr == 7 && rng.chance(1, 3) {
+                // directed (proposal-bound): a wave of fresh independent transactions on the current tip, a template after each
+                for _ in 0..rng.range(1, 2) {
+                    for _ in 0..rng.range(6, 9) {
+                        if let Some(t) = random_tx(&mut w, &mut rng, true) {
+                            if w.submit(t).is_ok() { n_accept += 1 } else { n_reject += 1 }
+                        }
+                    }
+                    w.probe_template("after-wave", true);
+                }
                 return Ok(());
             }
             if (pr == 5 || pr == 6) && rng.chance(1, 5) {
